@@ -8,9 +8,11 @@ import (
 	"context"
 	"encoding/hex"
 	"fmt"
+	"math"
 	"sort"
 	"strconv"
 	"strings"
+	"time"
 
 	"github.com/risor-io/risor"
 	"github.com/risor-io/risor/builtins"
@@ -22,7 +24,7 @@ func init() { commands["C16"] = c16_runC16 }
 
 // ---------------------------------------------------------------- values
 
-// tokens: n t f i<int> y<byte> s<hex> r<handle> _
+// tokens: n t f i<int> y<byte> d<2*float> s<hex> r<handle> _   (d4 = 2.0, d3 = 1.5)
 func c16Obj(tok string, objs []object.Object) object.Object {
 	switch tok[0] {
 	case 'n':
@@ -37,6 +39,9 @@ func c16Obj(tok string, objs []object.Object) object.Object {
 	case 'y':
 		v, _ := strconv.Atoi(tok[1:])
 		return object.NewByte(byte(v))
+	case 'd':
+		v, _ := strconv.ParseInt(tok[1:], 10, 64)
+		return object.NewFloat(float64(v) / 2)
 	case 's':
 		b, _ := hex.DecodeString(tok[1:])
 		return object.NewString(string(b))
@@ -50,6 +55,15 @@ func c16Obj(tok string, objs []object.Object) object.Object {
 func c16_sTok(s string) string { return "s" + hex.EncodeToString([]byte(s)) }
 func c16_iTok(i int64) string  { return "i" + strconv.FormatInt(i, 10) }
 
+// a float is modelled exactly when it is a half-integer of small magnitude
+func c16_fTok(v float64) string {
+	t := v * 2
+	if t != math.Trunc(t) || math.Abs(t) > 1<<52 || (t == 0 && math.Signbit(t)) {
+		return "?float(" + strconv.FormatFloat(v, 'g', -1, 64) + ")"
+	}
+	return "d" + strconv.FormatInt(int64(t), 10)
+}
+
 func c16HashRank(o object.Object) (int, int64, string) {
 	switch v := o.(type) {
 	case *object.Bool:
@@ -59,12 +73,14 @@ func c16HashRank(o object.Object) (int, int64, string) {
 		return 0, 0, ""
 	case *object.Byte:
 		return 1, int64(v.Value()), ""
+	case *object.Float:
+		return 2, int64(v.Value() * 2), "" // the hash keys of floats order as their values
 	case *object.Int:
-		return 2, v.Value(), ""
+		return 3, v.Value(), ""
 	case *object.NilType:
-		return 3, 0, ""
+		return 4, 0, ""
 	case *object.String:
-		return 4, 0, v.Value()
+		return 5, 0, v.Value()
 	}
 	return 9, 0, string(o.Type())
 }
@@ -86,8 +102,12 @@ func c16Render(o object.Object, depth int) string {
 		return c16_iTok(v.Value())
 	case *object.Byte:
 		return "y" + strconv.Itoa(int(v.Value()))
+	case *object.Float:
+		return c16_fTok(v.Value())
 	case *object.String:
 		return c16_sTok(v.Value())
+	case *object.ListIter:
+		return "I" // a cursor shows through next() / list(it) only
 	case *object.List:
 		parts := make([]string, 0, v.Size())
 		for _, it := range v.Value() {
@@ -184,11 +204,11 @@ var c16Unit = map[string]bool{"lset": true, "laddassign": true, "lappend": true,
 	"lextend": true, "lreverse": true, "lsort": true, "lclear": true, "ldel": true, "mset": true, "mdel": true,
 	"mupdate": true, "mclear": true, "maddassign": true, "sadd": true, "sremove": true, "sdel": true, "sclear": true, "bset": true}
 
-var c16ScriptOnly = map[string]bool{"lmap": true, "lmapacc": true, "sortedby": true, "lfilter": true, "leach": true, "leachacc": true}
+var c16ScriptOnly = map[string]bool{"lmap": true, "lmapacc": true, "sortedby": true, "lfilter": true, "leach": true, "leachacc": true, "lfor": true}
 
 // argument positions that are symbols of the protocol (callback shapes, raising call number)
 // or a second handle, not values handed to the script as globals
-var c16SymbolArgs = map[string]map[int]bool{"lmap": {1: true}, "sortedby": {1: true, 2: true}, "lfilter": {1: true}}
+var c16SymbolArgs = map[string]map[int]bool{"lmap": {1: true}, "sortedby": {1: true, 2: true}, "lfilter": {1: true}, "lfor": {1: true, 2: true}}
 var c16HandleArg1 = map[string]bool{"lmapacc": true, "leachacc": true}
 
 // builtins / methods that build their result out of NEW nested lists (registered as handles
@@ -200,6 +220,9 @@ var c16ProducesNew = map[string]bool{"lslice": true, "lcopy": true, "lconcat": t
 	"lmap": true, "mcopy": true, "mkeys": true, "mvalues": true, "sunion": true, "sinter": true, "bclone": true,
 	"sortedby": true, "xsorted": true, "xreversed": true, "tolist": true, "toset": true, "keysof": true, "mitems": true,
 	"lfilter": true, "lchunk": true}
+
+// a list iterator is a heap object of the model too (it gets a handle), but no container
+func c16_isIter(o object.Object) bool { _, ok := o.(*object.ListIter); return ok }
 
 var c16Builtins = func() map[string]any {
 	m := map[string]any{}
@@ -228,7 +251,7 @@ func (w *c16World) finish(name string, res object.Object, errMsg string) string 
 	if res == nil {
 		return "v:?gonil"
 	}
-	if c16_isContainer(res) {
+	if c16_isContainer(res) || c16_isIter(res) {
 		for _, o := range w.objs {
 			if o == res {
 				return "v:" + c16Render(res, 0)
@@ -426,6 +449,13 @@ func (w *c16World) execAPI(o c16Op) (out string) {
 		res, msg = c16_call(ctx, a[0], "items")
 	case "lchunk":
 		res = builtins.Chunk(ctx, a[0], a[1])
+	// list iterators
+	case "inew":
+		res = builtins.Iter(ctx, a[0])
+	case "inext":
+		res, msg = c16_call(ctx, a[0], "next")
+	case "irest":
+		res = builtins.List(ctx, a[0])
 	default:
 		msg = "other: unknown op " + o.name
 	}
@@ -561,6 +591,28 @@ func c16Source(o c16Op) string {
 		return h + ".each(func(x) { p1.append(x) })"
 	case "lchunk":
 		return "chunk(" + h + ", p1)"
+	case "inew":
+		return "iter(" + h + ")"
+	case "inext":
+		return h + ".next()"
+	case "irest":
+		return "list(" + h + ")"
+	case "lfor":
+		// args: handle, idx|noidx, body, body argument
+		body := map[string]string{
+			"none":        "",
+			"grow":        "  if len(p0) < " + o.args[3] + " { p0.append(x) }\n",
+			"poplast":     "  p0.pop(-1)\n",
+			"removecur":   "  p0.remove(x)\n",
+			"clear":       "  p0.clear()\n",
+			"setnext":     "  if c16k + 1 < len(p0) { p0[c16k + 1] = p3 }\n",
+			"insertfront": "  if len(p0) < " + o.args[3] + " { p0.insert(0, x) }\n",
+		}[o.args[2]]
+		head := "for x in p0 {\n  c16rec.append(x)\n"
+		if o.args[1] == "idx" {
+			head = "for i, x := range p0 {\n  c16rec.append(i)\n  c16rec.append(x)\n"
+		}
+		return "c16rec := []\nc16k := 0\n" + head + body + "  c16k += 1\n}\nc16rec"
 	}
 	return "error(\"unknown op\")"
 }
@@ -579,7 +631,7 @@ func (w *c16World) execScript(o c16Op) (out string) {
 		if t == "_" {
 			continue
 		}
-		if c16SymbolArgs[o.name][i] {
+		if c16SymbolArgs[o.name][i] || (o.name == "lfor" && i == 3 && o.args[2] != "setnext") {
 			continue
 		}
 		if c16HandleArg1[o.name] && i == 1 {
@@ -594,7 +646,15 @@ func (w *c16World) execScript(o c16Op) (out string) {
 		}
 		globals["p"+strconv.Itoa(i)] = c16Obj(t, w.objs)
 	}
-	res, err := risor.Eval(w.ctx, c16Source(o), risor.WithoutDefaultGlobals(), risor.WithGlobals(globals))
+	ctx := w.ctx
+	if o.name == "lfor" {
+		// a loop over a list its body changes must end by itself; the deadline only keeps a
+		// run-away loop of a broken iterator from hanging the run (it then shows as an error)
+		var cancel context.CancelFunc
+		ctx, cancel = context.WithTimeout(ctx, 20*time.Second)
+		defer cancel()
+	}
+	res, err := risor.Eval(ctx, c16Source(o), risor.WithoutDefaultGlobals(), risor.WithGlobals(globals))
 	if err != nil {
 		return w.finish(o.name, nil, err.Error())
 	}
@@ -606,6 +666,10 @@ func (w *c16World) execScript(o c16Op) (out string) {
 var c16SmallVals = []string{"i0", "i1", "i2", "i3", "i-1", c16_sTok("a"), c16_sTok("b"), c16_sTok("c"), "t", "f", "n"}
 var c16WideVals = []string{"i7", "i255", "i256", "i-2147483648", "i9007199254740993", "i9223372036854775807", "i-9223372036854775808",
 	c16_sTok(""), c16_sTok("ab"), c16_sTok("é"), c16_sTok("日本"), c16_sTok("a b"), c16_sTok("\x00"), c16_sTok("Z"), c16_sTok("😀"), c16_sTok("\xff"), c16_sTok("aé😀b")}
+
+// numbers of the other numeric types: risor's equality is by value across int, float and byte
+// (2 == 2.0 == byte(2)), so these collide with the ints of the small pool
+var c16NumVals = []string{"d0", "d2", "d4", "d6", "d3", "d-2", "d1", "y0", "y1", "y2", "y3", "y255"}
 var c16Keys = []string{"a", "b", "c", "", "é", "ab", "k1", "日本"}
 var c16Strings = []string{"", "a", "abc", "héllo", "日本語テキスト", "a😀b😀c", "x\xffy", "\xe2\x82", "naïve café", "\x00\x01", "ÿ"}
 
@@ -618,6 +682,11 @@ type c16Gen struct {
 	nMut   int
 	e      *Env
 	probe  *c16Probe // a builtin just returned a new container: mutate result and operand next
+	// list iterators: the list each one runs over, how often each list was changed, and the
+	// change count an iterator last saw (for the histogram of steps taken after a change)
+	iterOf   map[int]int
+	ver      map[int]int
+	iterSeen map[int]int
 }
 
 // an operand and the container a builtin made from it, both kept live: the next steps mutate
@@ -627,6 +696,9 @@ type c16Probe struct {
 }
 
 func (g *c16Gen) val() string {
+	if g.rng.Chance(14) {
+		return Pick(g.rng, c16NumVals)
+	}
 	if g.rng.Chance(75) {
 		return Pick(g.rng, c16SmallVals)
 	}
@@ -637,11 +709,64 @@ func (g *c16Gen) atomSameKind(l *object.List) string {
 	// a value likely to be present / of the element type
 	if l.Size() > 0 && g.rng.Chance(60) {
 		it := l.Value()[g.rng.Intn(l.Size())]
-		if !c16_isContainer(it) {
+		if !c16_isContainer(it) && !c16_isIter(it) {
+			// a needle that EQUALS the item but is of another numeric type
+			if t, ok := c16_retype(g.rng, it); ok && g.rng.Chance(50) {
+				g.e.R.H("needle", "equal-item-of-other-numeric-type")
+				return t
+			}
+			g.e.R.H("needle", "an-item-of-the-list")
 			return c16Render(it, 0)
 		}
 	}
+	g.e.R.H("needle", "from-the-pool")
 	return g.val()
+}
+
+// c16_retype: the same number as an object of another numeric type (int <-> float <-> byte)
+func c16_retype(rng *RNG, o object.Object) (string, bool) {
+	var v int64
+	switch x := o.(type) {
+	case *object.Int:
+		v = x.Value()
+	case *object.Byte:
+		v = int64(x.Value())
+	case *object.Float:
+		if x.Value() != math.Trunc(x.Value()) || math.Abs(x.Value()) > 1<<40 {
+			return "", false
+		}
+		v = int64(x.Value())
+	default:
+		return "", false
+	}
+	if v > 1<<40 || v < -(1<<40) {
+		return "", false
+	}
+	var cands []string
+	if _, isInt := o.(*object.Int); !isInt {
+		cands = append(cands, c16_iTok(v))
+	}
+	if _, isFlt := o.(*object.Float); !isFlt {
+		cands = append(cands, "d"+strconv.FormatInt(2*v, 10))
+	}
+	if _, isByte := o.(*object.Byte); !isByte && v >= 0 && v < 256 {
+		cands = append(cands, "y"+strconv.FormatInt(v, 10))
+	}
+	return Pick(rng, cands), true
+}
+
+// c16_addOperand: the right operand of `l[i] += v` / `m[k] += v`. Float sums are modelled
+// exactly for half-integers of small magnitude only, so a float never meets a huge int.
+func c16_addOperand(old object.Object, v string) string {
+	huge := func(o object.Object) bool {
+		i, ok := o.(*object.Int)
+		return ok && (i.Value() > 1<<40 || i.Value() < -(1<<40))
+	}
+	_, oldFlt := old.(*object.Float)
+	if (oldFlt && huge(c16Obj(v, nil))) || (v[0] == 'd' && old != nil && huge(old)) {
+		return "i1"
+	}
+	return v
 }
 
 func c16_containsContainer(o object.Object) bool {
@@ -706,7 +831,7 @@ func (g *c16Gen) index(n int, intOnlyErr bool) string {
 	switch {
 	case r < 6:
 		g.e.R.H("index_class", "wrong-type")
-		return Pick(g.rng, []string{c16_sTok("a"), "n", "t", "y1", c16_sTok("0")})
+		return Pick(g.rng, []string{c16_sTok("a"), "n", "t", "y1", c16_sTok("0"), "d2", "d0"})
 	case r < 10:
 		g.e.R.H("index_class", "extreme")
 		g.nBound++
@@ -923,7 +1048,13 @@ type c16_wop struct {
 
 var c16ListOps = []c16_wop{{8, "lget"}, {6, "lslice"}, {7, "lset"}, {4, "laddassign"}, {8, "lappend"}, {8, "linsert"}, {8, "lpop"},
 	{6, "lremove"}, {4, "lextend"}, {4, "lreverse"}, {4, "lsort"}, {4, "lcopy"}, {1, "lclear"}, {3, "lindex"}, {2, "lcount"},
-	{2, "lcontains"}, {2, "llen"}, {4, "ldel"}, {2, "lconcat"}, {2, "lsorted"}, {2, "lreversed"}, {1, "lkeys"}, {2, "lmap"}, {1, "lmapacc"}}
+	{2, "lcontains"}, {2, "llen"}, {4, "ldel"}, {2, "lconcat"}, {2, "lsorted"}, {2, "lreversed"}, {1, "lkeys"}, {2, "lmap"}, {1, "lmapacc"}, {2, "inew"}, {2, "lfor"}}
+
+// kind `iter`: iterators and loops over lists that change meanwhile; the list operations in
+// between are mostly mutations
+var c16IterListOps = []c16_wop{{8, "lappend"}, {6, "lpop"}, {4, "lremove"}, {6, "lset"}, {5, "linsert"}, {1, "lclear"}, {4, "ldel"},
+	{2, "lsort"}, {2, "lreverse"}, {2, "lextend"}, {1, "laddassign"}, {2, "lget"}, {1, "lcopy"}, {4, "inew"}, {7, "lfor"}}
+var c16ForBodies = []c16_wop{{2, "none"}, {4, "grow"}, {3, "poplast"}, {3, "removecur"}, {1, "clear"}, {3, "setnext"}, {2, "insertfront"}}
 var c16MapOps = []c16_wop{{10, "mset"}, {8, "mget"}, {6, "mgetdef"}, {6, "mpop"}, {6, "mdel"}, {4, "mupdate"}, {5, "msetdefault"},
 	{4, "mcopy"}, {1, "mclear"}, {3, "mkeys"}, {3, "mvalues"}, {3, "mcontains"}, {2, "mlen"}, {4, "maddassign"}}
 var c16SetOps = []c16_wop{{10, "sadd"}, {7, "sremove"}, {5, "sunion"}, {5, "sinter"}, {4, "scontains"}, {3, "sget"}, {4, "sdel"}, {2, "slen"}, {1, "sclear"}}
@@ -964,6 +1095,11 @@ func (g *c16Gen) next(allowDefects bool, curStr *string) (c16Op, bool) {
 		builtinChance = 45
 		kind = "mixed"
 	}
+	iterChance, listOps := 25, c16ListOps
+	if kind == "iter" {
+		iterChance, listOps = 45, c16IterListOps
+		kind = "list"
+	}
 	if kind == "mixed" {
 		kind = Pick(g.rng, []string{"list", "list", "map", "set", "bytes"})
 	}
@@ -981,6 +1117,22 @@ func (g *c16Gen) next(allowDefects bool, curStr *string) (c16Op, bool) {
 	H := strconv.Itoa
 	switch kind {
 	case "list":
+		// an iterator that exists is stepped (or drained) between the other list operations,
+		// which change the list it runs over
+		if its := g.handles(c16_isIter); len(its) > 0 && g.rng.Chance(iterChance) {
+			it := Pick(g.rng, its)
+			name := "inext"
+			if g.rng.Chance(15) {
+				name = "irest"
+			}
+			cls := name + "/list-unchanged-since-last-step"
+			if g.ver[g.iterOf[it]] != g.iterSeen[it] {
+				cls = name + "/list-changed-since-last-step"
+			}
+			g.iterSeen[it] = g.ver[g.iterOf[it]]
+			g.e.R.H("iter_step", cls)
+			return c16Op{name, []string{H(it)}}, true
+		}
 		r, ok := pickH(c16_isList)
 		if !ok {
 			return c16Op{}, false
@@ -992,8 +1144,25 @@ func (g *c16Gen) next(allowDefects bool, curStr *string) (c16Op, bool) {
 		}
 		l := objs[r].(*object.List)
 		n := l.Size()
-		name := c16_pickW(g.rng, c16ListOps)
+		name := c16_pickW(g.rng, listOps)
 		switch name {
+		case "inew":
+			return c16Op{name, []string{H(r)}}, true
+		case "lfor":
+			form := Pick(g.rng, []string{"idx", "noidx"})
+			body := c16_pickW(g.rng, c16ForBodies)
+			arg := "_"
+			switch body {
+			case "grow", "insertfront":
+				arg = strconv.Itoa(g.rng.Intn(n + 7)) // a bound below, at or above the current length
+			case "setnext":
+				arg = g.val()
+			}
+			if body != "none" {
+				g.nMut++
+			}
+			g.e.R.H("for_body", body+"/"+form)
+			return c16Op{name, []string{H(r), form, body, arg}}, true
 		case "lget", "lpop", "ldel":
 			if name != "lget" {
 				g.nMut++
@@ -1006,8 +1175,17 @@ func (g *c16Gen) next(allowDefects bool, curStr *string) (c16Op, bool) {
 			return c16Op{name, []string{H(r), g.index(n, true), g.valOrRef(r)}}, true
 		case "laddassign":
 			g.nMut++
-			v := Pick(g.rng, []string{"i1", "i5", "i-3", c16_sTok("x"), c16_sTok("é"), "i9223372036854775807"})
-			return c16Op{name, []string{H(r), g.index(n, true), v}}, true
+			v := Pick(g.rng, []string{"i1", "i5", "i-3", c16_sTok("x"), c16_sTok("é"), "i9223372036854775807", "d0", "d1", "d4", "y2"})
+			idx := g.index(n, true)
+			if k, err := strconv.ParseInt(strings.TrimPrefix(idx, "i"), 10, 64); err == nil && idx[0] == 'i' {
+				if k < 0 {
+					k += int64(n)
+				}
+				if k >= 0 && k < int64(n) {
+					v = c16_addOperand(l.Value()[k], v)
+				}
+			}
+			return c16Op{name, []string{H(r), idx, v}}, true
 		case "lappend":
 			g.nMut++
 			return c16Op{name, []string{H(r), g.valOrRef(r)}}, true
@@ -1104,7 +1282,15 @@ func (g *c16Gen) next(allowDefects bool, curStr *string) (c16Op, bool) {
 			return c16Op{name, []string{H(r), key(), optv()}}, true
 		case "maddassign":
 			g.nMut++
-			return c16Op{name, []string{H(r), key(), Pick(g.rng, []string{"i1", "i-7", c16_sTok("z")})}}, true
+			k := key()
+			v := Pick(g.rng, []string{"i1", "i-7", c16_sTok("z"), "d1"})
+			if k[0] == 's' {
+				kb, _ := hex.DecodeString(k[1:])
+				if old, ok := objs[r].(*object.Map).Value()[string(kb)]; ok {
+					v = c16_addOperand(old, v)
+				}
+			}
+			return c16Op{name, []string{H(r), k, v}}, true
 		case "mupdate":
 			g.nMut++
 			o, _ := pickH(c16_isMap)
@@ -1216,9 +1402,11 @@ func (g *c16Gen) initObjects() []string {
 			n = 18 + g.rng.Intn(8)
 		}
 		vs := make([]string, n)
-		mode := g.rng.Intn(4)
+		mode := g.rng.Intn(5)
 		for i := range vs {
 			switch mode {
+			case 4: // numbers of all three numeric types, many of them equal by value
+				vs[i] = Pick(g.rng, []string{"i0", "i1", "i2", "i3", "d0", "d2", "d4", "d6", "d3", "y1", "y2", "y3"})
 			case 0:
 				vs[i] = c16_iTok(int64(g.rng.Intn(7) - 2))
 			case 1:
@@ -1275,6 +1463,9 @@ func (g *c16Gen) initObjects() []string {
 	case "bytes":
 		add(mkBytes())
 		add(mkBytes())
+	case "iter":
+		add(mkList())
+		add(mkList())
 	case "string":
 	default:
 		add(mkList())
@@ -1421,7 +1612,7 @@ func c16SameForSpec(goRes, specRes string) bool {
 
 func c16RunCase(e *Env, rng *RNG, kind, mode string, maxLen int, allowDefects bool, fixed *c16Case) *c16Case {
 	w := &c16World{ctx: context.Background()}
-	g := &c16Gen{rng: rng, w: w, kind: kind, leaf: map[int]bool{}, e: e}
+	g := &c16Gen{rng: rng, w: w, kind: kind, leaf: map[int]bool{}, e: e, iterOf: map[int]int{}, ver: map[int]int{}, iterSeen: map[int]int{}}
 	c := &c16Case{mode: mode}
 	var specs []string
 	if fixed != nil {
@@ -1473,6 +1664,20 @@ func c16RunCase(e *Env, rng *RNG, kind, mode string, maxLen int, allowDefects bo
 				operand, _ := strconv.Atoi(o.args[0])
 				g.probe = &c16Probe{operand: operand, result: nObj - 1}
 			}
+			if o.args[0][0] >= '0' && o.args[0][0] <= '9' {
+				operand, _ := strconv.Atoi(o.args[0])
+				if o.name == "inew" && res == "new" {
+					g.iterOf[nObj-1] = operand
+					g.iterSeen[nObj-1] = g.ver[operand]
+				}
+				if c16Unit[o.name] || o.name == "lpop" || (o.name == "lfor" && o.args[2] != "none") {
+					g.ver[operand]++
+				}
+				if c16HandleArg1[o.name] {
+					acc, _ := strconv.Atoi(o.args[1])
+					g.ver[acc]++
+				}
+			}
 		}
 		c.ops = append(c.ops, o)
 		c.goRes = append(c.goRes, res)
@@ -1521,8 +1726,9 @@ func c16_runC16(e *Env) {
 	e.R.Rule = "a case = initial containers + an operation sequence (length <= 40) over one container type (list, map, set, byte_slice, string) " +
 		"or a mix with nested references (kind `builtins`: a mix in which ~45% of the steps are builtins that must leave their operand untouched and return an independent container " +
 		"-- sorted(x) / sorted(x, f) with f in {<, >, <=, >=, true, false} optionally raising at call k, reversed, list(), set(), keys(), items(), filter, each, chunk -- on list/map/set/byte_slice operands, " +
-		"each followed by a mutation of the result and then of the operand), run on the real objects through the object API or through single-statement scripts on the real VM; " +
-		"indices drawn from [-len-2, len+2] plus extremes and wrongly typed ones; values from a C15-style pool without floats; after EVERY step " +
+		"each followed by a mutation of the result and then of the operand; kind `iter`: lists with iterators -- iter(l), it.next(), list(it) -- stepped between mutations of the list they run over, " +
+		"and `for i, x := range l` / `for x in l` loops whose body changes l: grows it up to a bound, pops, removes the current item, clears, assigns the next item, inserts at the front), run on the real objects through the object API or through single-statement scripts on the real VM; " +
+		"indices drawn from [-len-2, len+2] plus extremes and wrongly typed ones; values from a C15-style pool plus floats that are half-integers of small magnitude and bytes (2 == 2.0 == byte(2)); the needles of index/count/remove/in/filter are drawn from the list and re-typed to another numeric type half of the time; after EVERY step " +
 		"the result and the content of EVERY live container are compared with the Lean Impl model and the Lean Spec. " +
 		"non-trivial: length >= 3 with >= 1 mutation and >= 1 boundary/negative/out-of-range index; distinct by (mode, initial objects, op list)"
 	nSeq := 12000
@@ -1554,6 +1760,18 @@ func c16_runC16(e *Env) {
 		{"set", "S:i3,i1,i2", "sortedby,0,gt,_;sortedby,0,lt,1;xsorted,0;tolist,0;toset,0;keysof,0;sadd,0,i9;lappend,2,i5;sremove,4,i1;lset,1,i0,i7"},
 		{"set", "S:i3,i1,s61", "sortedby,0,gt,_;xsorted,0;sortedby,0,always,_;tolist,0;sadd,0,i9;lpop,1,i0"},
 		{"bytes", "B:030102", "sortedby,0,lt,_;xsorted,0;xreversed,0;bset,3,i0,s7a;bset,0,i1,s51;lset,1,i0,i9;sortedby,0,gt,1"},
+		// searching by value across the numeric types (2 == 2.0 == byte(2)); a float made by arithmetic
+		{"list", "L:i1,d4,i3", "lindex,0,i2;lcount,0,i2;lcontains,0,i2;lindex,0,y2;lremove,0,i2;llen,0;lindex,0,i2"},
+		{"list", "L:i4,i8,i9", "laddassign,0,i1,d0;lindex,0,i8;lcount,0,y8;lremove,0,i8;llen,0;lpop,0,i-1;lget,0,i1"},
+		{"list", "L:y2,i2,d4,s61,d3", "lcount,0,i2;lcount,0,d4;lcount,0,y2;lindex,0,d4;lremove,0,d4;lremove,0,d4;lremove,0,d4;lremove,0,d4;lfilter,0,eq,i2;lindex,0,i1;lcontains,0,d3"},
+		{"list", "L:i3,d2,y2,d5,i0", "lsort,0;xsorted,0;toset,0;sortedby,0,gt,_;lindex,0,d6;lremove,0,y1;lget,0,i0"},
+		// iterate a list that changes meanwhile: the iterator is a cursor into the live list
+		{"list", "L:i1,i2,i3", "inew,0;inext,1;lappend,0,i4;inext,1;inext,1;inext,1;inext,1;lappend,0,i5;inext,1;irest,1"},
+		{"list", "L:i1,i2,i3", "inew,0;inext,1;lclear,0;inext,1;lappend,0,i7;lappend,0,i8;irest,1;inext,1"},
+		{"list", "L:i1,i2,i3,i4", "inew,0;lpop,0,i0;inext,1;lset,0,i1,i9;inext,1;linsert,0,i0,i5;irest,1;irest,1"},
+		{"list", "L:i1,i2", "inew,0;lappend,0,i3;lappend,0,i4;lappend,0,i5;lset,0,i0,i9;inext,1;irest,1;inew,0;lremove,0,i3;irest,3"},
+		{"list", "L:i1,i2,i3,i4", "lfor,0,idx,none,_;lfor,0,noidx,none,_;lfor,0,idx,grow,7;lfor,0,noidx,poplast,_;lfor,0,idx,removecur,_;lfor,0,idx,setnext,s7a;lfor,0,noidx,insertfront,6;lfor,0,idx,clear,_;llen,0"},
+		{"list", "L:i1,i2;L:i5", "lappend,0,r1;lfor,0,idx,grow,5;lfor,0,noidx,removecur,_;lfor,0,idx,grow,2;lget,0,i-1"},
 		{"list", "L:i1,i2,i3,i4,i5;L:i9", "lappend,0,r1;lchunk,0,i2;lset,2,i0,i8;lget,0,i0;lappend,0,i6;lpop,5,i0;lchunk,0,i0;lchunk,0,i9223372036854775807;lchunk,0,n;lappend,1,i7"},
 	}
 	var cases []*c16Case
@@ -1578,7 +1796,7 @@ func c16_runC16(e *Env) {
 		}
 	}
 	flush()
-	kinds := []string{"list", "list", "list", "map", "map", "set", "bytes", "string", "mixed", "mixed", "builtins", "builtins", "builtins"}
+	kinds := []string{"list", "list", "list", "map", "map", "set", "bytes", "string", "mixed", "mixed", "builtins", "builtins", "builtins", "iter", "iter", "iter"}
 	for i := 0; i < nSeq; i++ {
 		rng := e.Rng.Fork()
 		kind := kinds[i%len(kinds)]
